@@ -611,6 +611,7 @@ fn main() {
     ev.faults_fired.add("preemption_at_temp_counter", d.stats.preemptions);
     ev.faults_fired.add("preemption_at_quantum_expiry", d.stats.quantum_expiries);
     ev.faults_fired.add("worker_blocked_on_a_lock_held_across_a_preemption", d.stats.blocked_workers);
+    ev.faults_fired.add("worker_stalled_after_preemption", d.stats.stalls);
     if d.cfg.order_seed != 0 {
       ev.faults_fired.inc("module_order_permuted");
     }
